@@ -3,6 +3,8 @@ use std::num::NonZeroUsize;
 
 pub fn calc_num_threads(input_len: Option<usize>, num_threads: NumThreads) -> usize {
     let available_threads = std::thread::available_parallelism();
+    #[cfg(feature = "verif-hooks")]
+    let available_threads = crate::verif::available_parallelism(available_threads);
     match num_threads {
         NumThreads::Auto => auto_num_threads(input_len, available_threads),
         NumThreads::Max(x) => set_num_threads(input_len, available_threads, x.into()),
